@@ -95,6 +95,42 @@ def lossy_then_forged(mode, peer, drop):
     return r
 
 
+def configured_then_forged(mode, peer):
+    """real client WITH the engine id configured and an authenticated user, used straight away (no `with`, no refresh(),
+    as in the first example of the docs): the agent answers the get with an unauthenticated reply for the empty user"""
+    from props import c13
+    st = peer.state
+
+    def plan(dg):
+        outer = ber.decode_message(dg)
+        if outer.get("pdu_type", None) == 0 and not outer.get("varbinds", [1]) and outer.get("flags", 0) & 4:
+            return [st.report(outer["request_id"], outer["msg_id"], auth=bool(outer["flags"] & 1))]
+        rid = outer.get("request_id")
+        if rid is None:
+            try:
+                rid = st.parse_request(dg)["request_id"]
+            except ber.BerError:
+                return []
+        body = ber.scoped_pdu(st.engine_id, b"", ber.pdu(2, rid, 0, 0, [ber.varbind((1, 3, 6, 1), ber.OCT(b"FORGED"))]))
+        return [ber.msg_v3(outer["msg_id"], 0, st.engine_id, st.boots, st.time, b"", b"", b"", body)]
+    kw = dict(engine_id=st.engine_id, user=c13.client_user(st), timeout=0.4)
+    if mode == "sync":
+        from gufo.snmp.sync_client import SnmpSession
+        agent = e2e.ThreadAgent(lambda dg: [(0, x) for x in plan(dg)])
+        try:
+            sess = SnmpSession("127.0.0.1", port=agent.port, **kw)
+            return e2e.ncall(lambda: sess.get("1.3.6.1"))
+        finally:
+            agent.stop = True
+
+    async def main(port):
+        from gufo.snmp.async_client import SnmpSession
+        sess = SnmpSession("127.0.0.1", port=port, **kw)
+        return await sess.get("1.3.6.1")
+    r, _ = e2e.run_async(main, plan)
+    return r
+
+
 def class_of(body, mac, auth_flag, enc, priv_cfg):
     return f"{body}:mac={mac}:authflag={int(auth_flag)}:{'encrypted' if enc else 'clear'}:priv-configured={int(bool(priv_cfg))}"
 
@@ -166,7 +202,7 @@ def run(chk, model_ok=True):
                                         chk.notes.append(f"legitimate reply {cls} was not delivered: {r}")
                 # accept_partial: a forgery that ALSO mismatches must never be delivered
                 from props.c04 import near_bytes, near_ints
-                for field in ("user", "engine_id", "msg_id", "request_id") * (9 if quick else 48):
+                for field in ("user", "engine_id", "msg_id", "request_id", "engine_usm_only", "msg_id9", "request_id9") * (6 if quick else 32):
                     rec = s.send("get", "1.3.6.1")
                     req = s.conv.req
                     if rec["result"][0] != "ok" or not req or "request_id" not in req:
@@ -179,16 +215,27 @@ def run(chk, model_ok=True):
                         over["engine_id"] = near_bytes(rng, st.engine_id)
                     elif field == "msg_id":
                         over["msg_id"] = near_ints(rng, req["msg_id"])
+                    elif field == "engine_usm_only":
+                        # a foreign authoritative engine id in the USM header; the contextEngineID repeats the session's
+                        over["engine_id"] = near_bytes(rng, st.engine_id)
+                        over["ctx_engine_id"] = st.engine_id
+                    elif field in ("msg_id9", "request_id9"):
+                        # the right number written in nine content octets with a leading 01: that is 2^64 + id, another
+                        # (and unrepresentable) value; a decoder that drops the first octet would see the right id
+                        ber.NINE.add(req[field[:-1]])
                     else:
                         rq["request_id"] = near_ints(rng, req["request_id"])
                     # (a foreign request id may also come in a request-type PDU: a reflected or misdirected manager request)
                     btag = rng.choice([2, 2, 0, 1, 5]) if field == "request_id" else 2
                     dg = forge(rng, st, rq, btag if btag != 2 else "response", rng.choice(["zero", "absent", "random", "valid"]),
                                rng.random() < 0.7, bool(priv) and rng.random() < 0.5, 5, **over)
+                    ber.NINE.clear()
                     if dg is None:
                         continue
                     n += 1
                     r = s.recv("get", [dg])["result"]
+                    if field.endswith("9") and r[0] == "exc" and r[1] == "SnmpDecodeError":
+                        continue       # an INTEGER of nine octets is out of range: refusing the datagram is right
                     if r[0] == "exc" and r[1] != "BlockingIOError":
                         shown = over.get(field, rq["request_id"])
                         shown = shown.hex() if isinstance(shown, bytes) else shown
@@ -196,10 +243,14 @@ def run(chk, model_ok=True):
                              f"{field} ({shown}) was not passed over: it ended the call with {r[1]} (the genuine reply could no longer be received)",
                              s.line())
                     if r[0] == "ok":
-                        shown = over.get(field, rq["request_id"])
+                        fkey = {"engine_usm_only": "engine_id"}.get(field, field)
+                        shown = over.get(fkey, rq["request_id"])
                         shown = shown.hex() if isinstance(shown, bytes) else shown
-                        fail(f"{s.label}: forged reply with a wrong {field} ({shown} instead of "
-                             f"{(getattr(st, field, None) or req.get(field)) if field in ('msg_id', 'request_id') else getattr(st, 'user' if field == 'user' else 'engine_id').hex()}) was delivered", s.line())
+                        if field.endswith("9"):
+                            fail(f"{s.label}: forged reply whose {field[:-1]} is written in nine octets (2^64 + {req[field[:-1]]}) was delivered", s.line())
+                        else:
+                            fail(f"{s.label}: forged reply with a wrong {field} ({shown} instead of "
+                                 f"{(getattr(st, field, None) or req.get(field)) if field in ('msg_id', 'request_id') else getattr(st, 'user' if field == 'user' else 'engine_id').hex()}) was delivered", s.line())
     # a message that claims another security model is not a USM message at all: it must not be delivered,
     # whatever else matches (models equal to 3 modulo 256 / 2^16 are the interesting ones)
     for peer in (sessions.rand_v3_peer(rng, auth=1, priv=0), sessions.rand_v3_peer(rng, auth=2, priv=2)):
@@ -232,6 +283,14 @@ def run(chk, model_ok=True):
                      f"name was delivered as {r[1]!r}", f"# {mode} {peer.label} lossy discovery + forged reply")
             elif r[1] not in ("TimeoutError", "BlockingIOError"):
                 chk.notes.append(f"lossy discovery + forged reply ended as {r[1]}")
+    for mode in ("sync", "async"):
+        for auth in (1, 2):
+            peer = e2e.Peer("v3", auth=auth, priv=0, user="alice", auth_kt="localized")
+            n += 1
+            r = configured_then_forged(mode, peer)
+            if r[0] == "ok":
+                fail(f"{mode} client ({peer.label}), engine id configured, used without refresh(): an unauthenticated reply with an empty "
+                     f"user name was delivered as {r[1]!r}", f"# {mode} {peer.label} configured + forged reply")
     for fid, classes in sorted(reproduced.items()):
         f = [x for x in chk.findings() if x["id"] == fid][0]
         chk.known_finding(f"{fid}: {f['what']} [{len(classes)} forgery classes reproduced, e.g. {sorted(classes)[0]}]")
